@@ -2,6 +2,7 @@ Inductive jpiece := JLit (s : str) | JRow (k : Z) | JOff (k : Z) | JName | JPrev
 Inductive jval := JF (ps : list jpiece) | JOpen (ps : list jpiece) | JAsset | JDonations | JGifts.
 Definition gen_jp_years_sorted : bool := true.
 Definition gen_jp_prev_existing_year : bool := true.
+Definition gen_jp_intra_yen_guard_on_crypto : bool := true.
 Definition gen_jp_first_row : Z := 21.
 Definition gen_jp_transaction_row_start : Z := 22.
 Definition gen_jp_return_delta : Z := 9.
